@@ -6,7 +6,7 @@ import os
 
 # translators run on every tree change (sub-commands of tools/go2lean)
 TRANSLATORS = ["kernels"]
-for _sub, _f in (("ssa", "ssa.go"), ("asm", "asm.go"), ("facts", "facts.go")):
+for _sub, _f in (("ssa", "ssa.go"), ("formulas", "formulas.go"), ("asm", "asm.go"), ("facts", "facts.go")):
     if os.path.exists(os.path.join(os.path.dirname(os.path.dirname(os.path.abspath(__file__))), "tools", "go2lean", _f)):
         TRANSLATORS.append(_sub)
 
@@ -251,3 +251,13 @@ for _pid in ("C03", "C11", "C14", "C15", "C18", "C19"):
     PROPS[_pid]["trusted_extra"] = list(PROPS[_pid].get("trusted_extra", [])) + [
         "the SSA semantics EdVerif/Ssa/Sem.lean (meaning of the 23 instruction kinds and of the modelled externals) is validated on every run by executing "
         "the regenerated SSA with it (ssarun) against the real code on generated operation sequences, limb-exact"]
+
+# T5: the straight-line functions above the kernels are regenerated (Gen/Formulas.lean) and tied to the hand-written model by
+# `rfl` theorems, one per function and aliasing pattern (Gen/FormulaTies.lean)
+FORMULA_NOTE = ("translator T5 tools/go2lean/formulas.go (symbolic execution of the go/ssa form of 28 straight-line functions above the kernels: "
+                "point formulas, representation changes, Negate/Absolute/Equal/SqrtRatio, Add/Subtract/Negate/MultByCofactor/Equal/bytesMontgomery) "
+                "and its table of primitive callees; the generated definitions are proved equal to the hand-written model by rfl for every aliasing pattern")
+for _pid in ("C01", "C02", "C06", "C11", "C12", "C13", "C16", "C17", "C05", "C04"):
+    PROPS[_pid]["modules"] = list(PROPS[_pid]["modules"]) + ["EdVerif.Gen.FormulaTies"]
+    PROPS[_pid]["needs_gen"] = list(PROPS[_pid].get("needs_gen", DEFAULT_NEEDS_GEN)) + ["formulas"]
+    PROPS[_pid]["trusted_extra"] = list(PROPS[_pid].get("trusted_extra", [])) + [FORMULA_NOTE]
